@@ -298,6 +298,7 @@ theorem mt_fmt_total (f : Fmt) (t : Tree) (h : AllToks C19.HasWord t) : ∃ s, f
   · exact h5
   · exact ⟨_, rfl⟩
   · exact ⟨_, rfl⟩
+  · exact ⟨_, rfl⟩
 
 theorem mt_addNewline_ok {r : Except Err Str} (h : ∃ s, r = .ok s) : ∃ s, addNewline r = .ok s := by
   obtain ⟨s, rfl⟩ := h
@@ -343,6 +344,7 @@ theorem mt_printText_total (f : Fmt) (results : List SentResult)
     intro trees htrees t ht
     obtain ⟨r, hr, ts, hts, rfl⟩ := mt_mem_treesOnly htrees ht
     exact ⟨hw r hr ts hts, hja rfl r hr ts hts⟩
+  case json => exact ⟨_, rfl⟩
   all_goals (simp only [printText]; exact hrec _)
 
 /-! ### the whole program -/
